@@ -37,9 +37,23 @@ def readGone (inp : Json) : List (String × String) :=
     | .arr #[.str t, .str c] => some (t, c)
     | _ => none)
 
+/-- columns the generator's own history leaves in place are present in the oracle's catalog whatever sqlc's
+catalog says (type unknown: only resolution is judged through them) -/
+def addHas (c : Cat) (has : List (String × String)) : Cat :=
+  { c with schemas := c.schemas.map (fun sch =>
+      if sch.name != c.defaultSchema then sch else
+      { sch with tables := sch.tables.map (fun t =>
+          let missing := (has.filter (fun h => h.1 == t.name && !t.cols.any (·.name == h.2))).map (·.2)
+          { t with cols := t.cols ++ missing.map (fun n => ({ name := n, tschema := "", tname := "?", notNull := false, isArray := false } : CatCol)) }) }) }
+
+def readHas (inp : Json) : List (String × String) :=
+  (jarr inp "has").filterMap (fun p => match p with
+    | .arr #[.str t, .str c] => some (t, c)
+    | _ => none)
+
 def readSemCase (inp impl : Json) : SemCase :=
   let engine := jstr inp "engine"
-  { cat := dropGone (readCat (jobj inp "catalog") engine) (readGone inp), src := readNode (jobj inp "ast"),
+  { cat := addHas (dropGone (readCat (jobj inp "catalog") engine) (readGone inp)) (readHas inp), src := readNode (jobj inp "ast"),
     emb := if jhas impl "embAst" then some (readNode (jobj impl "embAst")) else none,
     names := (jarr inp "names").filterMap (fun p => match p with
       | .arr #[n, .str s] => some ((n.getNat?.toOption.getD 0), s)
